@@ -245,13 +245,19 @@ def _catalogue(tier, seed):
     # ---- flat grids
     inners = [("Grid1d", G([3], [[2], [2]])), ("Grid2d", G([2, 3], [[2, 2], [1, 2]])),
               ("Grid2d-mixed", G([3, 2], [[2, 2], [2, 3]])),
-              ("HEALPix", HP(1, [4])), ("Grid x Grid", P(g1, g1b))]
+              ("HEALPix", HP(1, [4])), ("Grid x Grid", P(g1, g1b)),
+              # >= 3 index axes with pairwise different trailing lengths: serial strides (b*c, c, 1) vs (b*c, b, 1)
+              ("Grid3d-223", G([2, 2, 3], [[1, 2, 1]])), ("Grid3d-123", G([1, 2, 3], [[1, 2, 3]])),
+              ("Grid3d-234", G([2, 3, 4], [[2, 1, 1]])),
+              ("HEALPix x Grid2d", P(HP(1, [4]), G([2, 3], [[1, 2]])))]
     if not q:
-        inners += [("Grid3d", G([1, 2, 3], [[1, 2, 3]])), ("Grid x HEALPix", P(g1, HP(1, [4, 4]))),
+        inners += [("Grid3d-223-d2", G([2, 2, 3], [[1, 2, 1], [2, 1, 2]])), ("Grid x HEALPix", P(g1, HP(1, [4, 4]))),
                    ("Grid2d-d3", G([2, 3], [[2, 2], [1, 2], [3, 1]])), ("HEALPix-d2", h1), ("Grid1d-d3", G([2], [[2], [3], [2]]))]
     for (lb, g), ordering in itertools.product(inners, ("serial", "nest")):
         out.append((7, "Flat-%s %s" % (ordering, lb), F(g, ordering)))
-    for lb, g in ((("Open1d", o1), ("Open2d", O([4, 5], [[2, 2]] * 2, [[1, 1]] * 2))) + (() if q else (
+    for lb, g in ((("Open1d", o1), ("Open2d", O([4, 5], [[2, 2]] * 2, [[1, 1]] * 2)),
+                   ("Open3d-345", O([3, 4, 5], [[2, 1, 2]], [[1, 1, 1]]))) + (() if q else (
+            ("Open3d-456-d2", O([4, 5, 6], [[1, 2, 1], [2, 1, 1]], [[1, 1, 2], [0, 1, 0]])),
             ("Open x Grid", P(o1, g1)), ("SimpleOpen", SO([3], 3, 2, 2, None))))):
         out.append((7, "Flat-serial %s" % lb, F(g, "serial")))
     out.append((7, "Flat-nest Open1d (refused)", F(o1, "nest")))
